@@ -114,6 +114,11 @@ type Custom struct {
 	Args     [][]string `json:"args,omitempty"` // each: name, values...
 	Embed    []string   `json:"embed,omitempty"`
 	Exported bool       `json:"exported"`
+	// Via: "" = the field carries the scanner's tag; "both" = it additionally carries the tag
+	// `<tag>h` which the scanner's extract handler recognises (the tag lookup wins, one
+	// property); "handler" = it carries only `<tag>h` (value and arguments are taken from it,
+	// and only a scanner that has a handler receives the field).
+	Via string `json:"via,omitempty"`
 	// Anon: the tagged field is itself an anonymous by-value struct field (`simrt.Mark`,
 	// Field == "Mark"): it carries a tag, so it is a field to process, not a carrier.
 	Anon bool `json:"anon,omitempty"`
@@ -234,6 +239,9 @@ type Scanner struct {
 	// NodeType: "" = a property type of its own; "Configuration" = the scanner files its
 	// properties under the built-in configuration property type.
 	NodeType string `json:"nodeType,omitempty"`
+	// Handler: besides its tag the scanner recognises fields through an extract handler
+	// (fields carrying the struct tag `<tag>h`).
+	Handler bool `json:"handler,omitempty"`
 }
 
 type Source struct {
